@@ -19,7 +19,7 @@ func boundaryBits(bits int) []uint64 {
 	add(2)
 	add(mask)
 	add(mask - 1)
-	add(uint64(1) << (bits - 1))     // sign bit / min signed
+	add(uint64(1) << (bits - 1))       // sign bit / min signed
 	add((uint64(1) << (bits - 1)) - 1) // max signed
 	add((uint64(1) << (bits - 1)) + 1)
 	for i := 0; i < bits; i++ {
